@@ -196,6 +196,33 @@ func triggered(r *rep.Report, e rep.Env) {
 // reservedVars: a `when` pattern may use variables that are called like the three
 // extra bindings (?location, ?ruleId, ?event).  What the match bound is what the
 // condition and the actions see; only names the match left unbound get the extras.
+// nullBindings: a `when` variable bound to JSON null is visible to the action as null (a value like
+// any other), at top level and inside a bound map.
+func nullBindings(r *rep.Report) {
+	for _, kind := range drv.Kinds {
+		loc, err := drv.NewLoc("N", kind, drv.MustMem())
+		if err != nil {
+			continue
+		}
+		rule := core.Map{"when": map[string]interface{}{"pattern": map[string]interface{}{"a": "?x", "m": "?m", "go": "null"}},
+			"action": map[string]interface{}{"code": "[String(x === null), typeof x, String(m.inner === null), String(event.a === null)].join('|')"}}
+		if _, err := loc.AddRule(drv.Ctx(), "nb", rule); err != nil {
+			r.Violate("", "AddRule failed: "+err.Error(), nil)
+			continue
+		}
+		fr, cond := loc.ProcessEvent(drv.Ctx(), core.Map{"a": nil, "m": map[string]interface{}{"inner": nil}, "go": "null"})
+		got := ""
+		if fr != nil && len(fr.Values) == 1 {
+			got = fmt.Sprint(fr.Values[0])
+		}
+		r.Case(true, "null-binding"+kind)
+		r.Count("null_binding_cases", 1)
+		if cond != nil || got != "true|object|true|true" {
+			r.Violate("", "a binding whose value is JSON null is not visible to the action as null", rep.J{"state": kind, "action_saw (x===null | typeof x | m.inner===null | event.a===null)": got, "want": "true|object|true|true", "condition": cond})
+		}
+	}
+}
+
 func reservedVars(r *rep.Report, e rep.Env) {
 	type tc struct {
 		when  map[string]interface{}
@@ -306,6 +333,7 @@ func main() {
 	systemWrites(r, e)
 	triggered(r, e)
 	reservedVars(r, e)
+	nullBindings(r)
 	nWorlds := e.Pick(150, 1000)
 	arrs := [][]interface{}{{"s1"}, {"s1", "s2"}, {"s1", "s2", "x"}, {}}
 	for wi := 0; wi < nWorlds; wi++ {
